@@ -898,9 +898,9 @@ class _Interp:
         try:
             for x in list(elems):
                 child.vars[var] = x
-                val = emit(child)
+                # like the equivalent loop `for x in c do if cond then emit`: the filter first, the element only when it passes
                 if cond is None or self.truth(self.ev(cond, child)):
-                    yield val
+                    yield emit(child)
         finally:
             if lock is not None:
                 lock.iterating -= 1
